@@ -7,6 +7,68 @@ use crate::httpref::{is_prefix, ref_decode, Framing, RefEnd};
 use crate::peers::{End, Script};
 use crate::runner::{violation, RunCtx, RunReport, Stats, Verdict};
 
+/// A final response that has no body by definition - `101 Switching Protocols` to a request that asked for
+/// an upgrade, 204, 304 - after which the server says nothing more on the connection (after 101 it waits
+/// for the client to speak the new protocol).  `send()` returns when the blank line has arrived and the
+/// (empty) body ends at once.
+fn final_head_without_body(g: &mut G, ctx: &RunCtx) -> RunReport {
+    use std::io::Read;
+    let status = *g.pick(&[101u16, 101, 204, 304]);
+    let head: Vec<u8> = match status {
+        101 => b"HTTP/1.1 101 Switching Protocols\r\nUpgrade: websocket\r\nConnection: Upgrade\r\nSec-WebSocket-Accept: s3pPLMBiTxaQ9kYGzzhZRbK+xOo=\r\n\r\n".to_vec(),
+        204 => b"HTTP/1.1 204 No Content\r\nX-A: b\r\n\r\n".to_vec(),
+        _ => b"HTTP/1.1 304 Not Modified\r\nETag: \"x\"\r\n\r\n".to_vec(),
+    };
+    g.probe("final-head-without-a-body-then-silence");
+    let (segs, seg_name) = gen::segmentation(g, head.len(), &[head.len() - 1, head.len() - 2]);
+    let mut sc = Script::from_wire(&head, &segs, End::Stall);
+    for _ in 0..g.below(3) {
+        if sc.acts.len() > 1 {
+            let at = g.usize_below(sc.acts.len());
+            sc.wait_before(at, (1 + g.below(300)) * NS_PER_MS);
+        }
+    }
+    let faults = attosim::ConnFaults { window: 65536, ..Default::default() };
+    let ran = bodyx::run_origin(&sc, &faults, ctx, || {
+        let t0 = attosim::now_ns();
+        let mut rb = attohttpc::get(format!("http://{}/upgrade", bodyx::HOST_IP)).read_timeout(std::time::Duration::from_secs(3600));
+        if status == 101 {
+            rb = rb.header("Connection", "Upgrade").header("Upgrade", "websocket").header("Sec-WebSocket-Key", "dGhlIHNhbXBsZSBub25jZQ==").header("Sec-WebSocket-Version", "13");
+        }
+        match rb.send() {
+            Err(e) => Err(format!("send:{}", bodyx::err_kind(&e))),
+            Ok(mut r) => {
+                let t_send = attosim::now_ns();
+                let st = r.status().as_u16();
+                let mut b = [0u8; 64];
+                let rr = r.read(&mut b).map_err(|e| bodyx::io_kind(&e));
+                Ok((t0, t_send, st, rr, attosim::now_ns()))
+            }
+        }
+    });
+    let mut stats = Stats::default();
+    stats.absorb(&ran.history);
+    let t_head = bodyx::head_arrival(&ran.history, head.len());
+    let verdict = match (&ran.observed, t_head) {
+        (None, _) => violation("hang", "run torn down"),
+        (Some(Err(p)), _) => violation("panic", p.clone()),
+        (_, None) => violation("harness:head-not-delivered", "head never delivered"),
+        (Some(Ok(Err(e))), _) => violation(format!("send-failed:{}:status-{}", e, status), format!("send() failed with {} although the complete head of a {} response arrived", e, status)),
+        (Some(Ok(Ok((_, t_send, st, rr, t_read)))), Some(th)) => {
+            if *t_send != th {
+                violation(format!("send-waited-beyond-head:status-{}", status), format!("send() returned at t={}ns but the blank line of the {} response arrived at t={}ns", t_send, status, th))
+            } else if *st != status {
+                violation("status-mismatch", format!("status {} reported, {} sent", st, status))
+            } else if *rr != Ok(0) || t_read != t_send {
+                violation(format!("bodiless-response-read-waited:status-{}", status), format!("reading the body of the {} response gave {:?} after {} ns", status, rr, t_read - t_send))
+            } else {
+                Verdict::Pass
+            }
+        }
+    };
+    RunReport { verdict, shape: format!("final-head-without-body/{}/seg={}", status, seg_name), nontrivial: true, stats, sched_tape: ran.sched_tape, describe: if ctx.describe { format!("{} head, then silence; seg={}", status, seg_name) } else { String::new() } }
+}
+
 pub fn scenario(g: &mut G, ctx: &RunCtx) -> RunReport {
     let max = if ctx.thorough { 300_000 } else { 100_000 };
     let mut plan = bodyx::gen_plan(g, max);
@@ -14,8 +76,8 @@ pub fn scenario(g: &mut G, ctx: &RunCtx) -> RunReport {
     plan.rereads = 0;
     // the oracle reads the delivery times of the first connection
     plan.prelude = None;
-    if plan.read_api == 2 {
-        // take(n).read_to_end() waits for n bytes by contract
+    if plan.read_api >= 2 {
+        // take(n).read_to_end() and read_to_end() wait for more bytes by contract
         plan.read_api = 1;
     }
     // the same exchange inside a TLS session (whichever back end this build has): one record per segment
@@ -87,6 +149,10 @@ pub fn scenario(g: &mut G, ctx: &RunCtx) -> RunReport {
     plan.end = End::Stall;
     plan.cut_at = Some(k);
     plan.damage = format!("Pause:at={}", k);
+    // drawn last: recorded tapes keep their meaning
+    if g.chance(1, 14) {
+        return final_head_without_body(g, ctx);
+    }
     let ran = bodyx::run(&plan, ctx, true);
     let mut stats = Stats::default();
     stats.absorb(&ran.history);
